@@ -3,7 +3,12 @@
    the property talks about.  The compiled Lean model (lean-crystals/Driver.lean) prints the same lines.
 
    usage: c14drv <history-file> <dir-with-generated-crystal-files> [dump]
+          c14drv <list-file> - batch
      `dump`: print the built-in collection in history syntax (initial state of the model) and exit.
+     `batch`: <list-file> holds one `<history-file> <dir>` pair per line; every history runs in a forked child
+              (the built-in array cannot be reset, and a sanitizer abort must end one history only); the parent
+              prints `history <file>` before and `exit <status>` after each on stdout, and `history <file>` on
+              stderr, so that the diagnostics of a child can be attributed.
 
    history syntax (one op per line, tokens separated by blanks; doubles as x<16 hex digits>):
      pool <name>...                    names looked up in every live collection after every op
@@ -30,6 +35,8 @@
 #include <stdint.h>
 #include <stdarg.h>
 #include <dirent.h>
+#include <unistd.h>
+#include <sys/wait.h>
 #include "xraylib.h"
 #include "xrayglob.h"
 
@@ -159,21 +166,44 @@ static void dump_builtin(void) {
   }
 }
 
+static int run_history(const char *hist_path, const char *files_dir);
+
 int main(int argc, char **argv) {
-  static char line[1 << 20]; static char *tok[1 << 16];
-  FILE *f; int opno = 0;
   if (argc < 3) return 2;
   if (argc > 3 && !strcmp(argv[3], "dump")) { dump_builtin(); return 0; }
   if (argc > 3 && !strcmp(argv[3], "verbose")) verbose = 1;
-  f = fopen(argv[1], "r"); if (!f) return 2;
   { static char obuf[1 << 16]; setvbuf(stdout, obuf, _IOFBF, sizeof obuf); }
+  if (argc > 3 && !strcmp(argv[3], "batch")) {
+    static char l[8192]; FILE *lf = fopen(argv[1], "r"); if (!lf) return 2;
+    while (fgets(l, sizeof l, lf)) {
+      char *h = strtok(l, " \n"), *d = strtok(NULL, " \n"); pid_t pid; int st = 0;
+      if (!h || !d) continue;
+      printf("history %s\n", h); fflush(stdout);
+      fprintf(stderr, "history %s\n", h); fflush(stderr);
+      pid = fork();
+      if (pid < 0) return 2;
+      if (pid == 0) { fclose(lf); _exit(run_history(h, d)); }
+      waitpid(pid, &st, 0);
+      printf("\nexit %d\n", WIFEXITED(st) ? WEXITSTATUS(st) : 128 + WTERMSIG(st)); fflush(stdout);
+    }
+    return 0;
+  }
+  return run_history(argv[1], argv[2]);
+}
+
+static int run_history(const char *hist_path, const char *files_dir) {
+  static char line[1 << 20]; static char *tok[1 << 16];
+  FILE *f; int opno = 0;
+  const char *argv[3];
+  argv[1] = hist_path; argv[2] = files_dir;
+  f = fopen(argv[1], "r"); if (!f) return 2;
   base_live = live_blocks; base_fds = open_fds();
   while (fgets(line, sizeof line, f)) {
     int nt = 0; xrl_error *e = NULL; char *p;
     for (p = strtok(line, " \n"); p && nt < (1 << 16); p = strtok(NULL, " \n")) tok[nt++] = p;
     if (nt == 0 || tok[0][0] == '#') continue;
     if (!strcmp(tok[0], "pool")) { int i; for (i = 1; i < nt && n_pool < 256; i++) pool[n_pool++] = strdup(tok[i]); base_live = live_blocks; continue; }
-    if (!strcmp(tok[0], "builtin")) continue;   /* initial state lines are for the model */
+    if (!strcmp(tok[0], "builtin") || !strcmp(tok[0], "builtinfile")) continue;   /* initial state lines are for the model */
     printf("op %d %s", opno++, tok[0]); fflush(stdout);
     if (!strcmp(tok[0], "init")) {
       Crystal_Array *a = Crystal_ArrayInit(atoi(tok[1]), &e);
@@ -219,10 +249,12 @@ int main(int argc, char **argv) {
         for (i = 0; i < c->n_atom; i++) { c->atom[i].Zatom = 0; c->atom[i].fraction = c->atom[i].x = c->atom[i].y = c->atom[i].z = w; }
       }
       printf(" ret=-");
-    } else { printf(" bad-op\n"); return 3; }
+    } else { printf(" bad-op\n"); fflush(stdout); return 3; }
     pr_err(&e); printf("\n");
     observe();
   }
   printf("end\n");
+  fflush(stdout);
+  fclose(f);
   return 0;
 }
